@@ -40,7 +40,7 @@ from deepali.spatial.base import SpatialTransform
 
 from . import frame_api
 
-FORMS = ["contig", "strided", "expand", "chlast", "grad", "transposed", "typed"]
+FORMS = ["contig", "strided", "expand", "chlast", "grad", "transposed", "typed", "subclass"]
 
 
 # =========================================================================== argument context
@@ -114,6 +114,11 @@ class Ctx:
             g = Grid(shape=tuple(V.shape[2:]), spacing=tuple([1.0, 1.5, 0.5][: self.D]))
             view = ImageBatch(base, g)
             self.typed.append((f"{name}#{len(self.tracked)}:typed", view, view._grid, [self._grid_state(x) for x in view._grid]))
+        elif form == "subclass" and floating:
+            # a tensor subclass over the tracked storage (a frozen Parameter): code that strips subclasses with
+            # as_subclass() gets a *new object on the same memory*, which defeats "is the result my argument?" guards
+            base = V.clone()
+            view = torch.nn.Parameter(base, requires_grad=False)
         elif form == "grad":
             base = V.clone().requires_grad_(True)
             view = base
@@ -557,6 +562,7 @@ IMG_ACC_FORMS = {
 }
 
 IMG_ACC = {
+    "batch": lambda o, r: o.batch(),  # Image / FlowField: the batch of one (a view on the same data and the same Grid object)
     "grid": lambda o, r: o.grid(_img_grid(o).center(_vec(r, _img_grid(o).ndim))),
     "resize": lambda o, r: o.resize(tuple(int(s) + 1 for s in _img_grid(o).size())),
     "resample": lambda o, r: o.resample(r.choice([0.75, 1.5])),
@@ -664,6 +670,8 @@ ACC["Transform"] = {
     "grid": lambda o, r: o.grid(_t_grid(o, r)),
     "data": lambda o, r: o.data(_t_data(o, r)),
     "condition": lambda o, r: o.condition(_t_cond(r)),
+    "condition:kw": lambda o, r: o.condition(scale=r.choice([3.0, 0.5])),
+    "condition:args+kw": lambda o, r: o.condition(_t_cond(r), scale=r.choice([3.0, 0.5])),
     "inverse": lambda o, r: o.inverse(link=r.choice([False, True]), update_buffers=r.choice([False, True])),
     "inv": lambda o, r: o.inv,
     "unlink": lambda o, r: o.unlink(),
@@ -1252,10 +1260,15 @@ class _Gen:
             return {"op": "new", "kind": rng.choice(kinds), "seed": rng.subseed(), "out": self.alloc()}
         lk = getattr(self, "last_kept", None)
         self.last_kept = None
-        if lk is not None and isinstance(self.pool.get(lk), Tensor) and rng.chance(0.3):
+        if lk is not None and lk in self.pool and rng.chance(0.3):
             # the client edits, in place, what it was just handed (a result is the caller's to modify unless it is
-            # documented to be the object's own state)
-            return {"op": "raw", "h": lk, "which": 0}
+            # documented to be the object's own state): a raw tensor edit, or an in-place variant of the API
+            tag_ = self.meta[lk]["tag"]
+            names_ = sorted(n for n in INPLACE.get(tag_, {}) if n not in ("fit", "remove_update_hook") and hasattr(self.pool[lk], n))
+            if names_ and (not isinstance(self.pool[lk], Tensor) or rng.chance(0.6)):
+                return {"op": "inplace", "h": lk, "name": rng.choice(names_), "seed": rng.subseed()}
+            if isinstance(self.pool[lk], Tensor):
+                return {"op": "raw", "h": lk, "which": 0}
         W = dict(sc["weights"])
         if len(self.pool) >= sc["max_pool"]:
             W["drop"] = W.get("drop", 0) + 3
@@ -1273,7 +1286,7 @@ class _Gen:
         # swarm: a run concentrates on a subset of the API
         sub = [n for i, n in enumerate(names) if (i + self.sc["api_phase"]) % self.sc["api_mod"] == 0] or names
         name = rng.choice(sub if rng.chance(0.7) else names)
-        forms = [rng.choice(FORMS) for _ in range(rng.randint(1, 3))]
+        forms = [rng.weighted([(f_, {"subclass": 2.0, "typed": 1.5, "contig": 1.5}.get(f_, 1.0)) for f_ in FORMS]) for _ in range(rng.randint(1, 3))]
         op = {"op": "func", "fn": name, "seed": rng.subseed(), "D": rng.weighted([(2, 3), (3, 1)]), "forms": forms, "twice": bool(rng.chance(0.25))}
         if rng.chance(0.12):
             op["f64"] = True
@@ -1284,9 +1297,12 @@ class _Gen:
         if oid is None:
             return None
         tag = self.meta[oid]["tag"]
-        name = rng.choice(sorted(ACC[tag]))
+        # accessors that hand out an object closely tied to the receiver (a batch view, coordinate tensors, getters of
+        # internal tensors) are where a result and the receiver's later answers can get entangled: chosen more often, and kept
+        handout = ("batch", "coords", "coords:flip", "coords:dim", "points", "cube", "grid:spacing", "grid:size", "get:tensors", "domain")
+        name = rng.weighted([(n_, 4.0 if n_ in handout else 1.0) for n_ in sorted(ACC[tag])])
         op = {"op": "accessor", "h": oid, "name": name, "seed": rng.subseed()}
-        if rng.chance(0.5):
+        if rng.chance(0.85 if name in handout else 0.5):
             op["out"] = self.alloc()
             self.next_id += 3
         return op
